@@ -39,7 +39,9 @@ static void trap_one(double vm, double ac, double de, double p0, double p1, doub
     ++n_req;
     if (!(T > 0)) { return; }
     ++n_plan;
-    std::string in = "{\"vm\":" + num(vm) + ",\"ac\":" + num(ac) + ",\"de\":" + num(de) + ",\"p0\":" + num(p0) + ",\"p1\":" + num(p1) + ",\"v0\":" + num(v0) + ",\"v1\":" + num(v1) + "}";
+    double vm_given = vm;
+    vm = std::fabs(vm); // the limit is a magnitude: a negative value means the same limit
+    std::string in = "{\"vm\":" + num(vm_given) + ",\"ac\":" + num(ac) + ",\"de\":" + num(de) + ",\"p0\":" + num(p0) + ",\"p1\":" + num(p1) + ",\"v0\":" + num(v0) + ",\"v1\":" + num(v1) + "}";
     double dir = p1 >= p0 ? 1 : -1;
     std::string d = dir > 0 ? "forward" : "reverse";
     double scale = std::fabs(p1 - p0) + std::fabs(p0) + vm * (double)T, tolp = 1e3 * EPS * scale, tolv = 1e3 * EPS * (vm + std::fabs((double)c.vc));
@@ -124,7 +126,9 @@ static void bell_one(double jm, double am, double vm, double p0, double p1, doub
     ++n_req;
     if (!(T > 0)) { return; }
     ++n_plan;
-    std::string in = "{\"jm\":" + num(jm) + ",\"am\":" + num(am) + ",\"vm\":" + num(vm) + ",\"p0\":" + num(p0) + ",\"p1\":" + num(p1) + ",\"v0\":" + num(v0) + ",\"v1\":" + num(v1) + "}";
+    std::string in0 = "{\"jm\":" + num(jm) + ",\"am\":" + num(am) + ",\"vm\":" + num(vm);
+    jm = std::fabs(jm); am = std::fabs(am); vm = std::fabs(vm); // limits are magnitudes: a negative value means the same limit
+    std::string in = in0 + ",\"p0\":" + num(p0) + ",\"p1\":" + num(p1) + ",\"v0\":" + num(v0) + ",\"v1\":" + num(v1) + "}";
     std::string d = std::string(p1 >= p0 ? "forward" : "reverse") + (c.tv > 0 ? "|cruise" : "|no-cruise");
     double scale = std::fabs(p1 - p0) + std::fabs(p0) + vm * (double)T;
     double K = EPS == (double)FLT_EPSILON ? 2e4 : 2e5; // 100x the worst value observed on the unchanged tree (~1200 eps); // the no-cruise branch bisects the acceleration down to eps: results carry ~1e-10 relative error
@@ -251,6 +255,7 @@ int main(int argc, char **argv)
                                     {
                                         if (std::fabs(v1) > 1.25 * vm) { continue; }
                                         trap_one(vm, dir * A, -dir * D, p0, p0 + dir * dist, v0, v1);
+                                        trap_one(-vm, dir * A, -dir * D, p0, p0 + dir * dist, v0, v1); // the same limit given with a negative sign
                                     }
                                 }
                             }
@@ -287,6 +292,7 @@ int main(int argc, char **argv)
                                         if (std::fabs(v1) > vm) { continue; }
                                         if (!bell_feasible(jm, am, dist, dir * v0, dir * v1)) { continue; }
                                         bell_one(jm, am, vm, p0, p0 + dir * dist, v0, v1);
+                                        if (p0 == 0) { bell_one(-jm, am, vm, p0, p0 + dir * dist, v0, v1); bell_one(jm, -am, vm, p0, p0 + dir * dist, v0, v1); bell_one(jm, am, -vm, p0, p0 + dir * dist, v0, v1); }
                                     }
                                 }
                             }
